@@ -1,4 +1,5 @@
 """C17 - traffic-light state follows the cycle definition."""
+import copy
 import itertools
 
 import numpy as np
@@ -55,6 +56,21 @@ def check(recipe, ctx):
                 obj.get_state_at_time_step(t)
             if hist["kind"] == "offset":
                 cycle.time_offset = offset
+            elif hist["kind"] == "durations-in-place":
+                # the elements are set to the recipe's (same number of phases) and are then edited in place one by one
+                # through their public setters, starting from the recipe's durations in another order
+                cycle.cycle_elements = [TrafficLightCycleElement(e.state, elements[j].duration)
+                                        for e, j in zip(elements, order)]
+                obj.get_state_at_time_step(ts[0])
+                for e, target in zip(cycle.cycle_elements, elements):
+                    e.duration = target.duration
+            elif hist["kind"] == "shallow-copy-offset":
+                # a shallow copy of the (already used) cycle gets another offset: the original keeps following its own
+                cycle.cycle_elements = elements
+                obj.get_state_at_time_step(ts[0])
+                twin = copy.copy(cycle)
+                twin.time_offset = hist["offset"] + 1 + offset
+                twin.get_state_at_time_step(ts[0])
             elif hist["kind"] == "elements" or light is None:
                 cycle.cycle_elements = elements
             else:
@@ -200,7 +216,8 @@ def strategy(tier):
                        min_size=1, max_size=8),
         "initial_offset": st.one_of(st.none(), st.none(), st.integers(0, 50)),
         "history": st.one_of(st.none(), st.none(), st.fixed_dictionaries({
-            "kind": st.sampled_from(["offset", "elements", "new-cycle"]), "offset": st.integers(0, 50),
+            "kind": st.sampled_from(["offset", "elements", "new-cycle", "durations-in-place", "shallow-copy-offset"]),
+            "offset": st.integers(0, 50),
             "order": st.lists(st.integers(0, 9), min_size=6, max_size=6), "repeat": st.booleans()})),
         # the 'active' flags describe whether the light is switched on, not which phase its cycle is in
         "active": st.sampled_from([True, True, False]), "cycle_active": st.sampled_from([True, True, False]),
